@@ -1164,8 +1164,16 @@ func (s *Service) processCopyShardRequest(conn net.Conn) {
 		}
 
 		// Restore to local shard.
-		if err := s.TSDBStore.RestoreShard(req.ShardID, r); err != nil {
+		ar := &archiveEndReader{r: r}
+		if err := s.TSDBStore.RestoreShard(req.ShardID, ar); err != nil {
 			return err
+		}
+
+		// A stream that the source closed early (it could not back the shard up, or the
+		// connection broke between two files) ends like a complete archive for the tar
+		// reader; only a complete one ends with the end-of-archive marker.
+		if !ar.complete() {
+			return fmt.Errorf("backup stream of shard %d from %s ended before the end of the archive", req.ShardID, req.Host)
 		}
 
 		return nil
@@ -1212,6 +1220,34 @@ func (s *Service) backupRemoteShard(host string, shardID uint64, since time.Time
 
 	// Return the connection which will stream the rest of the backup.
 	return conn, nil
+}
+
+// archiveEndReader remembers the last 1024 bytes read from a tar stream: a complete
+// archive ends with two zero blocks of 512 bytes.
+type archiveEndReader struct {
+	r    io.Reader
+	tail []byte
+}
+
+func (a *archiveEndReader) Read(p []byte) (int, error) {
+	n, err := a.r.Read(p)
+	a.tail = append(a.tail, p[:n]...)
+	if len(a.tail) > 1024 {
+		a.tail = a.tail[len(a.tail)-1024:]
+	}
+	return n, err
+}
+
+func (a *archiveEndReader) complete() bool {
+	if len(a.tail) < 1024 {
+		return false
+	}
+	for _, b := range a.tail {
+		if b != 0 {
+			return false
+		}
+	}
+	return true
 }
 
 func (s *Service) processRemoveShardRequest(conn net.Conn) {
